@@ -1,12 +1,14 @@
 import Driver.Util
 import Driver.Mac
 import Driver.Dev
+import Driver.Nb
 /-! Suite C07: twin runs on the model (see `Driver.Mac.runTwin`). -/
 namespace Driver.C07
 
 def handle (ws : List String) : String :=
   match ws with
   | "mac" :: rest => s!"{Driver.Mac.runTwin rest}|-"
+  | "nbdev" :: rest => s!"{Driver.Nb.run rest} ## oracle=ok|-"
   | "adev" :: rest => s!"{Driver.Dev.run rest} ## oracle=ok|-"
   | _ => "bad-op"
 
